@@ -60,7 +60,7 @@ func analyseAppFields(c *core.Ctx, f *appDBFacts) []*appField {
 					continue
 				}
 				for _, a := range g.Site.Common.Args {
-					if fa, ok := a.(*ssa.FieldAddr); ok && fieldNameOf(fa) == d && isAppDBPtr(fa.X.Type()) {
+					if fa, ok := core.Unwrap(a).(*ssa.FieldAddr); ok && fieldNameOf(fa) == d && isAppDBPtr(fa.X.Type()) {
 						af.Loaders = append(af.Loaders, g)
 					}
 				}
@@ -276,7 +276,7 @@ func runC09(c *core.Ctx) {
 		blockReach := cg.Reachable(blockRoots, nil)
 		calledFrom := func(root *ssa.Function) map[string]bool {
 			out := map[string]bool{}
-			for _, s := range core.SitesDeep(root) {
+			for _, s := range c.GroupSites(root) {
 				out[s.Callee] = true
 			}
 			return out
@@ -472,7 +472,7 @@ func checkVolatile(c *core.Ctx, rule string) {
 	end := c.Fn("(*coreV2/minter.Blockchain).EndBlock")
 	if end != nil {
 		var addV, graceRun, execRun *core.Site
-		for _, s := range core.Sites(end) {
+		for _, s := range c.GroupSites(end) {
 			switch {
 			case s.Callee == "(*coreV2/appdb.AppDB).AddVersion":
 				addV = s
@@ -483,7 +483,7 @@ func checkVolatile(c *core.Ctx, rule string) {
 			}
 		}
 		var graceInit, execInit *core.Site
-		for _, s := range core.Sites(initState) {
+		for _, s := range c.GroupSites(initState) {
 			switch {
 			case s.Callee == "coreV2/minter.graceForUpdate":
 				graceInit = s
